@@ -435,6 +435,11 @@ class World:
         else:
             exp = self.genesis_target
         target = exp
+        if mut == "target_otherchain" and parent is not None and d.get("altstart", -1) in self.by_abs:
+            alt = self.by_abs[d["altstart"]]
+            el = d["ts"] - alt.header.summary.timestamp
+            if el >= 0:
+                target = indep.new_target(parent.header.summary.target, el, self.cfg.timespan)
         if mut == "badtarget":
             v = (int.from_bytes(exp, "big") + 1) % (1 << 256)
             target = v.to_bytes(32, "big")
@@ -499,10 +504,13 @@ class World:
             index.append([self.balias(h), [self.balias(idx[x].hash()) for x in hs]] if hs == list(range(len(hs)))
                          else [self.balias(h), [-2]])
             if bal:
-                pk = cs.public_key_balances_by_hash[h]
-                rows = sorted([self.keys.alias_of_pub(k), min(v.value, CLAMP),
-                               [[self.talias(r.hash), r.index] for r in v.output_references]]
-                              for k, v in pk.items() if v.output_references or v.value)
+                try:
+                    pk = cs.public_key_balances_by_hash[h]
+                    rows = sorted([self.keys.alias_of_pub(k), min(v.value, CLAMP),
+                                   [[self.talias(r.hash), r.index] for r in v.output_references]]
+                                  for k, v in pk.items() if v.output_references or v.value)
+                except Exception:          # the node cannot report balances at this block: observed as such
+                    rows = [[-2, 0, []]]
                 bals.append([self.balias(h), rows])
         # forks() walks parent links by claimed heights: only defined (and terminating) on trees whose heights are
         # parent + 1 throughout -- the domain of C04.  Elsewhere (blocks below the checkpoint horizon) it is not called.
